@@ -41,15 +41,17 @@ XK = [
     ["X", ["L", [["X", ["L", [T("n1"), T("n2")]]], T("n3"), ["X", I([T("n4")])], ["X", ["L", []]]]]],
     ["X", B([["X", T("in-tag")], ["X", ["L", [dep("xd1", "1.5"), I([])]]], T("tail")])],
     ["XR", B([T("xr")]), "<REPR/>"],
+    ["XS", B([T("stored"), dep("xd3", "3.0")], [["class", "st"]])],
+    ["XS", ["L", [T("sl1"), I([T("sl2")])]]],
 ]
 ITEMS = PLAIN + XK
-WRAPPERS = ["top", "block", "inline", "nested", "html-root"]
+WRAPPERS = ["top", "block", "inline", "nested", "html-root", "displayed"]
 
 
 def expand(spec):
     """own expansion table: spec -> list of plain specs replacing it."""
     k = spec[0]
-    if k in ("X", "XR"):
+    if k in ("X", "XR", "XS"):
         res = spec[1]
         if res[0] == "L":
             out = []
@@ -80,7 +82,7 @@ def wrap(items, wrapper):
 
 def has_unexpanded(spec, plain_only=True):
     k = spec[0]
-    if k == "X":
+    if k in ("X", "XS"):
         return True
     if k == "E":
         return any(has_unexpanded(c) for c in spec[4])
@@ -93,9 +95,37 @@ def depkey(d):
     return (d.name, str(d.version), repr(d.script))
 
 
+def build_displayed(items):
+    """children added by displaying them inside a `with tag:` block."""
+    import sys
+    from htmltools import Tag
+    t = Tag("div")
+    saved = sys.displayhook
+    sys.displayhook = lambda v: None
+    try:
+        with t:
+            for it in items:
+                sys.displayhook(build(it))
+    finally:
+        sys.displayhook = saved
+    return t
+
+
 def fn(case):
+    import htmltools
     from htmltools import HTMLDocument
     items, wrapper = case
+    if wrapper == "displayed":
+        viols = []
+        exp_items = []
+        for it in items:
+            exp_items.extend(expand(it))
+        real, exp = build_displayed(items), build(B(exp_items))
+        r, e = real.render(), exp.render()
+        if r["html"] != e["html"] or [depkey(d) for d in r["dependencies"]] != [depkey(d) for d in e["dependencies"]]:
+            viols.append(("displayed:render", "children displayed inside a with-block do not render as their expansion",
+                          {"observed": r["html"], "expected": e["html"]}))
+        return (any(len(expand(it)) != 1 for it in items), e["html"], viols, 2)
     real_spec = wrap(items, wrapper)
     exp_items = []
     for it in items:
@@ -116,6 +146,26 @@ def fn(case):
     if dr["html"] != de["html"] or [depkey(d) for d in dr["dependencies"]] != [depkey(d) for d in de["dependencies"]]:
         viols.append(("document:render", "HTMLDocument.render() differs from the expansion's",
                       {"observed": dr["html"], "expected": de["html"]}))
+    # rendering the same object again gives the same (stored expansions must not be written into)
+    again = real.render()
+    if again["html"] != r["html"] or [depkey(d) for d in again["dependencies"]] != [depkey(d) for d in r["dependencies"]]:
+        viols.append(("render:second-time", "rendering the same tree a second time differs from the first",
+                      {"first": r["html"], "second": again["html"]}))
+    dr2 = HTMLDocument(real2).render()
+    if dr2["html"] != dr["html"]:
+        viols.append(("document:second-time", "HTMLDocument.render() of the same object differs the second time",
+                      {"first": dr["html"], "second": dr2["html"]}))
+    # JSON dependency render mode: str() must serialise the dependencies of the expansions too
+    if wrapper != "html-root":
+        assert htmltools.html_dependency_render_mode == "invisible"
+        htmltools.html_dependency_render_mode = "json"
+        try:
+            sj, ej = str(build(real_spec)), str(build(exp_spec))
+        finally:
+            htmltools.html_dependency_render_mode = "invisible"
+        if sj != ej:
+            viols.append(("json-mode:str", "str() in JSON dependency mode differs from the expansion's",
+                          {"observed": sj[-400:], "expected": ej[-400:]}))
     # tagify() itself: result holds no tagifiable-only object and equals the expected tree
     t = build(real_spec).tagify()
     try:
